@@ -1,7 +1,14 @@
 """Engine R front end: builds /verif/replay against /repo's current tree (own target dir) and runs one replay family."""
 import os, json, subprocess, fcntl
-from .driver import VERIF, CACHE
+from .driver import VERIF, CACHE, REPO, OUT
 TARGET = os.path.join(CACHE, 'target-replay')
+CRATE = os.path.join(VERIF, 'replay')
+if REPO != '/repo':   # self-test on a scratch copy: private copy of the driver crate pointing at it, own target dir under the scratch output
+    import shutil
+    CRATE = os.path.join(OUT or '/tmp', 'replay-crate'); TARGET = os.path.join(OUT or '/tmp', 'target-replay')
+    if not os.path.exists(CRATE):
+        shutil.copytree(os.path.join(VERIF, 'replay'), CRATE, ignore=shutil.ignore_patterns('target'))
+        t = open(os.path.join(CRATE, 'Cargo.toml')).read().replace('path = "/repo"', 'path = "%s"' % REPO); open(os.path.join(CRATE, 'Cargo.toml'), 'w').write(t)
 _built = [False]
 def build():
     if _built[0]: return True
@@ -9,7 +16,7 @@ def build():
     lock = open(os.path.join(CACHE, 'replay.lock'), 'w'); fcntl.flock(lock, fcntl.LOCK_EX)
     try:
         env = dict(os.environ, CARGO_NET_OFFLINE='true', CARGO_TARGET_DIR=TARGET)
-        p = subprocess.run(['cargo', 'build', '--offline', '--quiet'], cwd=os.path.join(VERIF, 'replay'), env=env, stdout=subprocess.PIPE, stderr=subprocess.STDOUT, text=True)
+        p = subprocess.run(['cargo', 'build', '--offline', '--quiet'], cwd=CRATE, env=env, stdout=subprocess.PIPE, stderr=subprocess.STDOUT, text=True)
         _built[0] = p.returncode == 0
         if p.returncode != 0: print('native replay build failed:\n' + p.stdout[-2000:])
         return _built[0]
